@@ -232,13 +232,32 @@ def run(plan):
             dev.silent_on_bad_token = bool(plan.get("silent_on_bad_token"))   # firmware that ignores unknown tokens
             w.net.listen(ip, 6444, dev)
             reply = good_reply(3, dev_id, ip, 6444, "000000P0000000Q1B88C29C963BA0000", "net_ac_63BA")
-            w.net.add_udp_host(ip, RefHost(ip, [(0.05 + 0.001 * i * plan.get("stagger", 0), 6445, reply)]))
+            w.net.add_udp_host(ip, RefHost(ip, [(plan.get("reply_delay", 0.05) + 0.001 * i * plan.get("stagger", 0), 6445, reply)]))
             endian = plan["endian"] if i % 2 == 0 else ("big" if plan["endian"] == "little" else "little")
             reg = codec.udpid(dev_id.to_bytes(6, endian)).hex()
             cloud.tokens[reg] = [{"udpId": reg, "token": token.hex(), "key": key.hex()}]
             devs.append((ip, dev_id, dev, token, key, reg, endian))
-        o = await capture(w, D.discover(auto_connect=True, account=acct, password=pwd, region=region,
-                                        get_async_client=cloud.client_factory()))
+        if plan.get("overlap"):
+            # two discovery runs overlap in one event loop (a UI refresh button pressed twice): each reports every
+            # unit, properly authenticated
+            async def later():
+                await asyncio.sleep(plan["overlap"])
+                return await capture(w, D.discover(auto_connect=True, account=acct, password=pwd, region=region,
+                                                   get_async_client=cloud.client_factory()))
+            o, o_b = await asyncio.gather(
+                capture(w, D.discover(auto_connect=True, account=acct, password=pwd, region=region,
+                                      get_async_client=cloud.client_factory())), later())
+            w.fire("two_discovery_runs_overlap")
+            if o_b.kind != "ok":
+                res.fail(f"discover(auto_connect=True) raised {o_b.exc_type}", f"the later of two overlapping runs: {o_b.exc!r}")
+                return
+            if sorted(d.ip for d in o_b.value) != sorted(x[0] for x in devs) or any(
+                    d.token != tk.hex() for d in o_b.value for (ip, _i, _d, tk, _k, _r, _e) in devs if ip == d.ip):
+                res.fail("device not authenticated with its registered credentials", "the later of two overlapping runs")
+                return
+        else:
+            o = await capture(w, D.discover(auto_connect=True, account=acct, password=pwd, region=region,
+                                            get_async_client=cloud.client_factory()))
         if o.kind == "ok" and plan.get("twice"):
             # a second discovery run in the same process, after the server has dropped the first run's session
             cloud.sessions.clear()
@@ -401,6 +420,7 @@ def space(tier):
         if p["twice"]:
             p.pop("faults", None)
         p["silent_on_bad_token"] = rng.random() < 0.3
+        want_overlap = rng.random() < 0.2
         if not p["twice"] and rng.random() < 0.25:
             # a one-off hard fault (HTTP 5xx / 4xx, API error, transport exception) on the k-th cloud request
             k = rng.choice([0, 1, 2, 2, 2, 3])
@@ -408,6 +428,9 @@ def space(tier):
                                                     ["exc", "ConnectError"], ["exc", "RemoteProtocolError"]])]
             p["hard_fault"] = True
             p["ndev"] = 1
+        if want_overlap and not p["twice"] and "faults" not in p:
+            p["overlap"] = rng.choice([0.5, 2.0, 4.0, 5.5, 7.0])
+            p["reply_delay"] = rng.choice([0.05, 1.0, 3.5, 4.5])     # slow units: answered late in the window
         return p
     sp.add("e2e", 1500 if tier == "quick" else 150_000, e2e)
 
